@@ -374,6 +374,7 @@ class _ListProbe(list):
 
 def describe(tr, r, info):
     sc = tr[0]["sc"]
+    r = max(r, 1)
     end = tr[-1]
     if "op" in sc:
         return (f"{info['fmt']}.dump_many frames={len(sc['frames'])} iterable={info['note']} -> out={end['out']} complete={end['complete']}",
